@@ -88,7 +88,7 @@ class RankBasedPreferenceSorting(RankingFunction, Generic[C]):
 
     _logger = logging.getLogger(__name__)
 
-    def compute_ranking_assignment(  # noqa: C901,D102
+    def compute_ranking_assignment(  # noqa: D102
         self, solutions: list[C], uncovered_goals: OrderedSet[ff.FitnessFunction]
     ) -> RankedFronts:
         if not solutions:
@@ -107,11 +107,7 @@ class RankBasedPreferenceSorting(RankingFunction, Generic[C]):
             ranked_solutions = len(zero_front)
             comparator: DominanceComparator[C] = DominanceComparator(goals=uncovered_goals)
 
-            remaining: list[C] = []
-            remaining.extend(solutions)
-            for element in zero_front:
-                if element in remaining:
-                    remaining.remove(element)
+            remaining: list[C] = self._remove_ranked(solutions, zero_front)
 
             while (
                 ranked_solutions < config.configuration.search_algorithm.population
@@ -121,23 +117,24 @@ class RankBasedPreferenceSorting(RankingFunction, Generic[C]):
                     remaining, comparator, front_index
                 )
                 fronts.append(new_front)
-                for element in new_front:
-                    if element in remaining:
-                        remaining.remove(element)
+                remaining = self._remove_ranked(remaining, new_front)
                 ranked_solutions += len(new_front)
                 front_index += 1
 
         else:
-            remaining = []
-            remaining.extend(solutions)
-            for element in zero_front:
-                if element in remaining:
-                    remaining.remove(element)
+            remaining = self._remove_ranked(solutions, zero_front)
             for element in remaining:
                 element.rank = front_index
             fronts.append(remaining)
 
         return RankedFronts(fronts)
+
+    @staticmethod
+    def _remove_ranked(solutions: list[C], front: list[C]) -> list[C]:
+        # Compare by identity: equal chromosomes (e.g., clones) are different individuals,
+        # removing by equality could drop an unranked one and keep the ranked one.
+        ranked = {id(solution) for solution in front}
+        return [solution for solution in solutions if id(solution) not in ranked]
 
     @staticmethod
     def _get_zero_front(
